@@ -154,12 +154,13 @@ impl C15 {
         let mut classes: Vec<String> = vec![];
         let dup_target = t.chance(8);
         for e in 0..ne {
-            let mut target = tnames[t.below(tnames.len())].to_string();
+            let mut target = if t.chance(12) { format!("{}.o", "t".repeat(9 + t.below(26))) } else { tnames[t.below(tnames.len())].to_string() };
             if entries.iter().any(|x| x.0 == target) && !dup_target {
                 target = format!("{}{}", e, target);
             }
             let np = t.below(7);
-            let prereqs: Vec<String> = (0..np).map(|_| pnames[t.below(pnames.len())].to_string()).collect();
+            // (also names of every length from 12 to 37: parsers that work block-wise have their seams there)
+            let prereqs: Vec<String> = (0..np).map(|_| if t.chance(20) { format!("{}.h", "p".repeat(10 + t.below(26))) } else { pnames[t.below(pnames.len())].to_string() }).collect();
             // formatting
             text.push_str(&target);
             text.push_str(&" ".repeat(t.weighted(&[6, 2, 1])));
